@@ -497,3 +497,78 @@ def c17_6(R):
             R.fail([STQ, "fin-rto-guard", " && ".join(pred), "not-retransmitted-in=" + ",".join(sorted(need - covered))],
                    "on a timeout the FIN is retransmitted only under %s, which excludes state(s) %s where our FIN is also unacknowledged: there the 'nothing to send' arm switches the retransmit timer off and a lost FIN is never repaired" % (" && ".join(pred), ", ".join(sorted(need - covered))),
                    where=t.where(), instance="fin-rto-covers-states")
+
+
+STATE_PREDICATES = {
+    # audited against docs/states.dot and the comments of the state enum: which connection states each predicate holds in
+    "is_local_fin_or_later": {"true": {"FinWait1", "FinWait2", "LastAck", "Closed"}, "false": {"SynReceived", "SynAckSent", "Established"}},
+    "is_remote_fin_or_later": {"true": {"LastAck", "Closed"}, "false": {"SynReceived", "SynAckSent", "Established", "FinWait1", "FinWait2"}},
+    "our_fin_if_unacked": {"Some": {"FinWait1", "LastAck"}, "None": {"SynReceived", "SynAckSent", "Established", "FinWait2", "Closed"}},
+    "transition_to_fin_wait_1": {"true": {"SynReceived", "SynAckSent", "Established"}, "false": {"FinWait1", "FinWait2", "LastAck", "Closed"}},
+    # is_closed(wait_for_last_ack): LastAck is closed only when the last ACK is not awaited
+    "is_closed": {"true": {"Closed", "LastAck"}, "false": {"SynReceived", "SynAckSent", "Established", "FinWait1", "FinWait2", "LastAck"}},
+}
+
+
+@rule("C17.7", ["C17", "C08", "C03", "C02"], ["E7"], "the state predicates hold in exactly the audited states",
+      "The variant tables extracted from VirtualSocketState::{is_local_fin_or_later, is_remote_fin_or_later, our_fin_if_unacked, transition_to_fin_wait_1, is_closed} equal the audited tables "
+      "(local FIN scheduled = FinWait1|FinWait2|LastAck|Closed, remote FIN seen = LastAck|Closed, our FIN unacknowledged = FinWait1|LastAck, closable from SynReceived|SynAckSent|Established, "
+      "closed = Closed, or LastAck when the last ACK is not awaited). Every guard of the dispatcher is written in terms of these predicates - the FIN gate, the final-chance timer, the death-path FIN, "
+      "the FIN retransmission, segmentation after a remote close - so a predicate that gains or loses a state silently moves all of them.")
+def c17_7(R):
+    from utpsa.discr import fn_variant_classes
+    n = 0
+    for fn, want in STATE_PREDICATES.items():
+        b = R.body(SE + "::" + fn)
+        tab = fn_variant_classes(b)
+        n += 1
+        got = {k: set(v) for k, v in (tab or {}).items()}
+        if got == want:
+            R.ok("state-predicate", fn, "; ".join("%s in {%s}" % (k, ",".join(sorted(v))) for k, v in sorted(want.items())))
+        else:
+            diff = []
+            for k in sorted(set(want) | set(got)):
+                extra = got.get(k, set()) - want.get(k, set())
+                missing = want.get(k, set()) - got.get(k, set())
+                if extra or missing:
+                    diff.append("%s:+%s-%s" % (k, ",".join(sorted(extra)) or "", ",".join(sorted(missing)) or ""))
+            R.fail([SE + "::" + fn, "variant-table", ";".join(diff)], "%s no longer holds in exactly the audited connection states (%s)" % (fn, "; ".join(diff)), where=b.where(), instance="state-predicate")
+    R.floor("state predicates", n, 5)
+
+
+@rule("C17.8", ["C17", "C03", "C08"], ["E4", "E2"], "what 'unsent data exists' and 'closed' mean to the dispatcher",
+      "VirtualSocket::unsent_data_exists is true when this_poll.unsegmented_data > 0, and otherwise the result of any(|s| s.send_count() == 0) over all queued segments (iter_mut_for_sending(None)): the "
+      "local FIN is scheduled only under its negation (C17.4). VirtualSocket::state_is_closed is state.is_closed(socket_opts.wait_for_last_ack).")
+def c17_8(R):
+    F = R.facts
+    b = R.body(VS + "::unsent_data_exists")
+    anyc = [t for t in b.calls() if call_matches(t, ("Iterator::any",))]
+    it_ok = False
+    clo_ok = False
+    for t in anyc:
+        src = trace(b, t.args[0])
+        if src.kind == "call" and call_matches(src.root[1], ("Segments::iter_mut_for_sending",)) and classify(b, src.root[1].args[1]) == "None":
+            it_ok = True
+        ct = trace(b, t.args[1])
+        if ct.kind == "rv" and ct.root[1].rv.kind == "agg" and ct.root[1].rv.j.get("ak") == "closure":
+            cb = F.body(ct.root[1].rv.j["closure"])
+            for s in cb.stmts():
+                if s.place.is_local and s.place.local == 0 and s.rv.kind == "bin" and s.rv.op == "Eq":
+                    srcs = [trace(cb, o) for o in s.rv.ops]
+                    if any(x.kind == "call" and call_matches(x.root[1], ("SegmentForSending::send_count",)) for x in srcs) and any(o.kind == "const" and o.scalar == 0 for o in s.rv.ops):
+                        clo_ok = True
+    unseg = any(nonzero_test(c, True) is not None and trace(b, nonzero_test(c, True)).last_field == "ThisPoll.unsegmented_data" or nonzero_test(c, False) is not None and trace(b, nonzero_test(c, False)).last_field == "ThisPoll.unsegmented_data"
+                for blk in b.blocks if not blk.cleanup and blk.term.kind == "switch" for c in [switch_cond(b, blk.term)[0]])
+    if it_ok and clo_ok and unseg:
+        R.ok("unsent_data_exists", b.name, "unsegmented_data > 0 || any(send_count() == 0)")
+    else:
+        R.fail([b.name, "shape", "all-segments=%s never-sent-test=%s unsegmented=%s" % (it_ok, clo_ok, unseg)], "unsent_data_exists no longer means 'unsegmented bytes or a never-sent segment exist': the FIN can be scheduled before all accepted data was transmitted", where=b.where(), instance="unsent_data_exists")
+    sc = R.body(VS + "::state_is_closed")
+    okc = False
+    for t in sc.calls():
+        if call_matches(t, (SE + "::is_closed",)) and trace(sc, t.args[0]).last_field == "VirtualSocket.state" and trace(sc, t.args[1]).last_field == "ValidatedSocketOpts.wait_for_last_ack":
+            okc = True
+    if okc:
+        R.ok("state_is_closed", sc.name, "state.is_closed(socket_opts.wait_for_last_ack)")
+    else:
+        R.fail([sc.name, "shape"], "state_is_closed no longer asks the state with the configured wait_for_last_ack", where=sc.where(), instance="state_is_closed")
